@@ -1,9 +1,322 @@
-"""IOCB path of C04 (placeholder until IOQ.tla is wired in)"""
+"""IOCB path of C04: real ApplicationIOController (IOCB -> SieveQueue per destination -> Application -> ASAP -> SMAP)
+talking to real serving Applications over a harness-owned lossy medium.  Executions are recorded in the vocabulary of
+IOQ.tla and validated by TLC (Trace_IOQ.tla); the design itself is model-checked (MC over 3 IOCBs x 2 destinations)."""
+import os, json, random, shutil
+from common import bind_source, Hang, watchdog
+bind_source()
+import vtime
+vt = vtime.install()
+import tlc
+import bacpypes.core as core
+from bacpypes.comm import bind, Server
+from bacpypes.pdu import Address, PDU
+from bacpypes.apdu import APDU, ReadPropertyRequest
+from bacpypes.app import Application, ApplicationIOController
+from bacpypes.appservice import StateMachineAccessPoint, ApplicationServiceAccessPoint, SSM
+from bacpypes.local.device import LocalDeviceObject
+from bacpypes.object import AnalogValueObject
+from bacpypes.service.object import ReadWritePropertyServices
+from bacpypes.iocb import IOCB, IOQController
+from tsmrig import parse_apdu
+
+STATES = {0: "idle", 1: "pending", 2: "active", 3: "completed", 4: "aborted"}
+
+
+class Low(Server):
+    def __init__(self, node):
+        Server.__init__(self)
+        self.node = node
+
+    def indication(self, apdu):
+        x = APDU()
+        apdu.encode(x)
+        pdu = PDU()
+        x.encode(pdu)
+        self.node.rig.emit(self.node, bytes(pdu.pduData), apdu.pduDestination)
+
+
+class ClientApp(ApplicationIOController):
+    _startup_disabled = True
+
+
+class ServerApp(Application, ReadWritePropertyServices):
+    _startup_disabled = True
+
+
+class Node:
+    def __init__(self, rig, addr, client, retries, tapdu):
+        self.rig, self.addr = rig, Address(addr)
+        dev = LocalDeviceObject(objectName="dev%d" % addr, objectIdentifier=("device", addr), maxApduLengthAccepted=1024,
+                                segmentationSupported="segmentedBoth", vendorIdentifier=999,
+                                numberOfApduRetries=retries, apduTimeout=tapdu, apduSegmentTimeout=tapdu // 8 or 1)
+        self.app = (ClientApp if client else ServerApp)(dev, self.addr)
+        if not client:
+            self.app.add_object(AnalogValueObject(objectIdentifier=("analogValue", 1), objectName="av1", presentValue=float(addr)))
+        self.asap = ApplicationServiceAccessPoint()
+        self.smap = StateMachineAccessPoint(dev, self.app.deviceInfoCache)
+        self.low = Low(self)
+        bind(self.app, self.asap, self.smap, self.low)
+
+    def receive(self, octets, source):
+        pdu = PDU(octets, source=source, destination=self.addr)
+        apdu = APDU()
+        apdu.decode(pdu)
+        self.low.response(apdu)
+
+
+class Rig:
+    def __init__(self, dests, retries=1, tapdu=3000):
+        vt.reset(0.0)
+        self.c = Node(self, 1, True, retries, tapdu)
+        self.servers = {d: Node(self, d, False, retries, tapdu) for d in dests}
+        self.dests = list(dests)
+        self.net = []
+        self.frame_no = 0
+        self.iocbs = []
+        self.cb = []
+        self.evs = []
+        self.errors = []
+        self.applied = {}
+
+    def emit(self, node, octets, dest):
+        self.frame_no += 1
+        d = int(str(dest))
+        self.net.append([octets, vt.now, int(str(node.addr)), d, self.frame_no, parse_apdu(octets)["k"]])
+
+    def snapshot(self):
+        q = self.c.app.queue_by_address
+        st = [STATES[i.ioState] for i in self.iocbs]
+        act, pend, qex, trig = [], [], [], []
+        for d in self.dests:
+            sq = q.get(Address(d))
+            act.append((self.iocbs.index(sq.active_iocb) + 1) if (sq and sq.active_iocb in self.iocbs) else 0)
+            pend.append([self.iocbs.index(x[1]) + 1 for x in sq.ioQueue.queue] if sq else [])
+            qex.append(sq is not None)
+            trig.append(sum(1 for fn, args, kw in core.deferredFns if fn is IOQController._trigger and sq is not None and args and args[0] is sq))
+        residue = dict(ct=len(self.c.smap.clientTransactions), st=sum(len(s.smap.serverTransactions) for s in self.servers.values()),
+                       timers=len(vt.tm.tasks), deferred=len(core.deferredFns), net=len(self.net))
+        return dict(now=int(round(vt.now * 1000)), st=st, cb=list(self.cb), active=act, pend=pend, qexists=qex, trig=trig, residue=residue)
+
+    def log(self, op, k=0, d=0, exc=""):
+        self.evs.append(dict(op=op, k=k, d=d, exc=exc, s=self.snapshot()))
+
+    def guarded(self, fn, *a):
+        try:
+            with watchdog(10):
+                fn(*a)
+                n = 0
+                while core.deferredFns and n < 1000:
+                    core.run_once()
+                    n += 1
+        except Hang:
+            raise
+        except Exception as err:
+            self.errors.append(type(err).__name__ + ": " + str(err))
+            return self.errors[-1]
+        if vt.errors:
+            self.errors.append(vt.errors[-1][1])
+            vt.errors = []
+            return self.errors[-1]
+        return ""
+
+    def request(self, d):
+        req = ReadPropertyRequest(objectIdentifier=("analogValue", 1), propertyIdentifier="presentValue", destination=Address(d))
+        iocb = IOCB(req)
+        k = len(self.iocbs)
+        self.iocbs.append(iocb)
+        self.cb.append(0)
+
+        def done(i, k=k):
+            self.cb[k] += 1
+        iocb.add_callback(done)
+        exc = self.guarded(self.c.app.request_io, iocb)
+        self.log("request", k + 1, self.dests.index(d) + 1, exc)
+
+    def run(self, plan, faults, rng=None, limit=4000):
+        """plan: list of (time_ms, dest) requests; faults: {frame number: 'drop'|'dup'|'delay'}"""
+        plan = sorted(plan)
+        faults = dict(faults)
+        for _ in range(limit):
+            if plan and plan[0][0] <= vt.now * 1000:
+                self.request(plan.pop(0)[1])
+                continue
+            due_frames = [i for i, f in enumerate(self.net) if f[1] <= vt.now]
+            due_timers = sorted(e for e in vt.tm.tasks if e[0] <= vt.now)
+            choices = [("f", i) for i in due_frames[:1]] + [("t", e) for e in due_timers[:1]]
+            if not choices:
+                nxt = [e[0] for e in vt.tm.tasks] + [f[1] for f in self.net] + [p[0] / 1000.0 for p in plan]
+                if not nxt:
+                    break
+                vt.now = max(vt.now, min(nxt))
+                continue
+            kind, x = rng.choice(choices) if rng else choices[0]
+            if kind == "t":
+                exc = self.guarded(vt.run_one, x)
+                self.log("run", 0, 0, exc)
+                continue
+            octets, at, src, dst, n, k = self.net[x]
+            f = faults.pop(n, None)
+            if f:
+                self.applied[n] = f
+            if f == "drop":
+                self.net.pop(x)
+                self.log("run")
+                continue
+            if f == "delay":
+                self.net[x][1] = vt.now + 1.0
+                self.log("run")
+                continue
+            if f == "dup":
+                self.net.insert(x + 1, [octets, at, src, dst, n, k])
+            self.net.pop(x)
+            node = self.c if dst == 1 else self.servers.get(dst)
+            exc = self.guarded(node.receive, octets, Address(src)) if node else ""
+            self.log("run", 0, 0, exc)
+        else:
+            self.evs.append(dict(op="livelock", k=0, d=0, exc="", s=self.snapshot()))
+        return self.evs
+
+
+TRACE_SPEC = """---- MODULE Trace_IOQ ----
+(* Monitor-mode validation of recorded IOCB executions against IOQ.tla: every logged state is bound to the IOQ
+   variables; the IOQ invariants and the Monotone action property are evaluated on it; `request` steps are also
+   checked for conformance with the Request action.  One verdict per trace. *)
+EXTENDS IOQ, Json, IOUtils, TLCExt
+Traces == ndJsonDeserialize(IOEnv.TRACE_FILE)
+VARIABLES tid, l, rej, viol
+T == Traces[tid].evs
+N == Traces[tid].n
+Pad(s, dflt) == [k \\in K |-> IF k <= Len(s) THEN s[k] ELSE dflt]
+TInit == Init /\\ tid \\in 1..Len(Traces) /\\ l = 1 /\\ rej = 0 /\\ viol = {}
+Bind(e) == /\\ st' = Pad(e.s.st, "idle") /\\ cb' = Pad(e.s.cb, 0)
+           /\\ dest' = IF e.op = "request" THEN [dest EXCEPT ![e.k] = e.d] ELSE dest
+           /\\ active' = [d \\in D |-> e.s.active[d]] /\\ pend' = [d \\in D |-> e.s.pend[d]]
+           /\\ trig' = [d \\in D |-> e.s.trig[d]] /\\ qexists' = [d \\in D |-> e.s.qexists[d]]
+           /\\ act' = [op |-> e.op, k |-> e.k, d |-> e.d]
+AtEnd == l = Len(T)
+Failing(e) ==
+    (IF AtMostOneCompletion' THEN {} ELSE {"AtMostOneOutcome"}) \\cup
+    (IF DoneIffCompletion' THEN {} ELSE {"ExactlyOneAtQuiescence"}) \\cup
+    (IF OneActivePerDestination' THEN {} ELSE {"OneActivePerDestination"}) \\cup
+    (IF PendingAreQueued' THEN {} ELSE {"NoResidue"}) \\cup
+    (IF A_Monotone THEN {} ELSE {"AtMostOneOutcome"}) \\cup
+    (IF e.op = "livelock" THEN {"Terminates"} ELSE {}) \\cup
+    \\* end of run: every IOCB has its one outcome and nothing is left in the queues, the stacks, the heap
+    (IF AtEnd /\\ e.op # "livelock" /\\ ~(\\A k \\in K : dest'[k] # 0 => (st'[k] \\in {"completed", "aborted"} /\\ cb'[k] = 1))
+        THEN {"ExactlyOneAtQuiescence"} ELSE {}) \\cup
+    (IF AtEnd /\\ e.op # "livelock" /\\ ~((\\A d \\in D : pend'[d] = <<>> /\\ ~qexists'[d] /\\ active'[d] = 0)
+                 /\\ e.s.residue.ct = 0 /\\ e.s.residue.st = 0 /\\ e.s.residue.timers = 0 /\\ e.s.residue.deferred = 0)
+        THEN {"NoResidue"} ELSE {})
+Step == /\\ l <= Len(T)
+        /\\ LET e == T[l] IN
+            /\\ Bind(e)
+            /\\ rej' = IF rej = 0 /\\ e.op = "request" /\\ ~ENABLED (Request(e.k, e.d) /\\ Bind(e)) THEN l ELSE rej
+            /\\ viol' = viol \\cup {<<m, l>> : m \\in {x \\in Failing(e) : \\A v \\in viol : v[1] # x}}
+        /\\ l' = l + 1 /\\ UNCHANGED tid
+Done_ == /\\ l = Len(T) + 1
+         /\\ PrintT(<<"@@", [tid |-> Traces[tid].tid, rej |-> rej, viol |-> viol]>>)
+         /\\ l' = l + 1 /\\ UNCHANGED <<vars, tid, rej, viol>>
+TSpec == TInit /\\ [][Step \\/ Done_]_<<vars, tid, l, rej, viol>>
+====
+"""
+
+
+def record(dests, plan, faults, seed=None, retries=1):
+    rig = Rig(dests, retries=retries)
+    hang = ""
+    try:
+        rig.run(plan, faults, rng=random.Random(seed) if seed is not None else None)
+    except Hang as h:
+        hang = str(h)
+    return dict(dests=dests, plan=plan, faults=faults, seed=seed, retries=retries, evs=rig.evs, hang=hang, errors=rig.errors[:3],
+                n=len(rig.iocbs), applied=rig.applied)
+
+
+def validate(chk, traces):
+    if not traces:
+        return
+    wd = tlc.workdir("ioq")
+    tf = os.path.join(wd, "t.ndjson")
+    with open(tf, "w") as f:
+        for t in traces:
+            f.write(json.dumps({"tid": t["tid"], "n": t["n"], "evs": t["evs"]}) + "\n")
+    kmax = max(t["n"] for t in traces)
+    cfg = "SPECIFICATION TSpec\nCONSTANTS K = {%s} D = {1, 2}\nCHECK_DEADLOCK FALSE\n" % ", ".join(str(i) for i in range(1, kmax + 1))
+    try:
+        res = tlc.run_tlc("Trace_IOQ", cfg_text=cfg, files={"Trace_IOQ.tla": TRACE_SPEC}, workers=4, timeout=900,
+                          env={"TRACE_FILE": tf}, name="Trace_IOQ")
+    finally:
+        shutil.rmtree(wd, ignore_errors=True)
+    if res["error_kind"]:
+        tlc.machinery_failure("IOQ trace validation failed: %s\n%s" % (res["error"], res["output"][-3000:]))
+    vs = {v["tid"]: v for v in tlc.printed_values(res["output"])}
+    if len(vs) != len(traces):
+        tlc.machinery_failure("IOQ trace validation returned %d verdicts for %d traces\n%s" % (len(vs), len(traces), res["output"][-2000:]))
+    chk.extra["ioq_trace_states"] = res["distinct"]
+    for t in traces:
+        v = vs[t["tid"]]
+        rp = {"kind": "iocb", "dests": t["dests"], "plan": t["plan"], "faults": t["faults"], "seed": t["seed"], "retries": t["retries"]}
+        sig = {"path": "iocb", "nfaults": len(t["applied"]), "fault": "+".join(sorted(t["applied"].values())) or "none",
+               "concurrent": len(t["plan"])}
+        if t["hang"]:
+            chk.violation("Terminates", sig, {"what": "IOCB path did not return", "plan": t["plan"], "faults": t["faults"]}, rp)
+        for m, l in sorted(v["viol"]):
+            e = t["evs"][l - 1]
+            chk.violation(m, sig, {"path": "iocb", "step": l, "event": e["op"], "state": e["s"], "plan": t["plan"], "faults": t["faults"],
+                                   "errors": t["errors"]}, rp)
+        if not v["viol"] and v["rej"]:
+            chk.deviation({"path": "iocb", "step": v["rej"], "state": t["evs"][v["rej"] - 1]["s"], "plan": t["plan"]})
+        if not v["viol"] and not v["rej"] and not t["hang"]:
+            chk.traces_validated += 1
+
+
+MC_CFG = """SPECIFICATION Spec
+CONSTANTS K = {1, 2, 3} D = {1, 2}
+INVARIANT AtMostOneCompletion
+INVARIANT DoneIffCompletion
+INVARIANT OneActivePerDestination
+INVARIANT PendingAreQueued
+INVARIANT NoStall
+INVARIANT NoResidue
+PROPERTY Monotone
+PROPERTY EventuallyAllDone
+CHECK_DEADLOCK FALSE
+"""
 
 
 def run(chk, rng, thorough):
-    return
+    res = tlc.run_tlc("IOQ", cfg_text=MC_CFG if not thorough else MC_CFG.replace("K = {1, 2, 3}", "K = {1, 2, 3, 4}"), timeout=600, name="IOQ/3iocb_2dest")
+    chk.tlc(res)
+    if res["error_kind"]:
+        tlc.machinery_failure("design model IOQ violates %s\n%s" % (res["error"], res["output"][-2000:]))
+    traces = []
+    dests = [2, 3]
+    # fault-free shapes: bursts to one destination, interleaved destinations, requests arriving while one is in flight
+    shapes = [[(0, 2)], [(0, 2), (0, 2), (0, 2)], [(0, 2), (0, 3), (0, 2), (0, 3)], [(0, 2), (1, 2), (3000, 2), (3001, 3)]]
+    for plan in shapes:
+        base = record(dests, plan, {})
+        traces.append(base)
+        nframes = max([0] + [e["s"]["residue"]["net"] for e in base["evs"]]) + 2 * len(plan) + 2
+        for n in range(1, nframes + 1):
+            for kind in ("drop", "dup", "delay"):
+                traces.append(record(dests, plan, {n: kind}))
+    # every request unanswered (silence): all retries, local abort, queue must advance
+    traces.append(record(dests, [(0, 2), (0, 2), (0, 3)], {n: "drop" for n in range(1, 60)}))
+    for i in range(300 if thorough else 40):
+        plan = [(rng.choice([0, 0, 1, 2000, 3000, 6500]), rng.choice(dests)) for _ in range(rng.randint(1, 6))]
+        faults = {rng.randint(1, 30): rng.choice(["drop", "dup", "delay"]) for _ in range(rng.randint(0, 8))}
+        traces.append(record(dests, plan, faults, seed=rng.randrange(1 << 30), retries=rng.randint(0, 2)))
+    for i, t in enumerate(traces):
+        t["tid"] = i + 1
+        chk.case(("iocb", i), nontrivial=bool(t["faults"]) or len(t["plan"]) > 1)
+    chk.sample({"iocb_plan": traces[-1]["plan"], "faults": traces[-1]["faults"], "final": traces[-1]["evs"][-1]["s"] if traces[-1]["evs"] else None})
+    validate(chk, traces)
+    chk.extra["iocb_runs"] = len(traces)
 
 
 def replay(chk, rp):
-    return
+    t = record(rp["dests"], [tuple(p) for p in rp["plan"]], {int(k): v for k, v in rp["faults"].items()}, seed=rp.get("seed"), retries=rp.get("retries", 1))
+    t["tid"] = 1
+    for e in t["evs"]:
+        print(e["op"], e["k"], e["d"], e["exc"], e["s"]["now"], e["s"]["st"], e["s"]["cb"], e["s"]["active"], e["s"]["pend"])
+    validate(chk, [t])
